@@ -153,7 +153,7 @@ static void sweep_child(const void *job, size_t n) {
 		uint8_t d = (uint8_t) v; expect_mirror(0, f ? MSG_BM_MIRROR_FREE : MSG_BM_MIRROR_OCC, &d, 1);
 		sb_send(0, f ? MSG_BM_FREE : MSG_BM_OCC, &d, 1); vs_point(); hx_quiesce(); snprintf(what, sizeof what, "%s detector %d", f ? "free" : "occ", v); check_quiescent(what); cases++;
 	}
-	if (part == 1) for (int base = 0; base <= 16 && !res_nviol(); base += 8) for (int size = 8; size <= 128; size += 8) for (int pat = 0; pat < 4; pat++) {
+	if (part == 1) for (int base = 0; base <= 248 && !res_nviol(); base += 8) for (int size = 8; size <= 128 && base + size <= 256; size += 8) for (int pat = 0; pat < (base <= 16 ? 4 : 2); pat++) {     /* every base up to the topmost detector byte: base + size == 256 is legal */
 		uint8_t d[20]; d[0] = (uint8_t) base; d[1] = (uint8_t) size;
 		for (int i = 0; i < size / 8; i++) d[2 + i] = pat == 0 ? 0x00 : pat == 1 ? 0xFF : pat == 2 ? (uint8_t) (0x55 << (i & 1)) : (uint8_t) (1 << (i & 7));
 		expect_mirror(0, MSG_BM_MIRROR_MULTIPLE, d, 2 + size / 8);
